@@ -1120,12 +1120,117 @@ def run_direct(fn, cases):
     return out
 
 
-def main():
-    import logging
-    for name in ('weasyprint', 'weasyprint.progress', 'fontTools'):
-        logging.getLogger(name).setLevel(logging.CRITICAL + 1)
-    job = json.loads(sys.stdin.read())
-    import weasyprint   # noqa
+# =====================================================================================================================
+# 8. argument containers the caller reuses: the same list / dict / registry objects handed to 1..4 successive calls
+
+def _items_snapshot(lst):
+    """Identity, type and (for plain values) value of every item of a caller's list."""
+    if lst is None:
+        return None
+    return [(type(x).__name__, id(x), x if isinstance(x, (str, bytes, int, bool)) else None) for x in lst]
+
+
+def reuse_history(case, tmpdir):
+    """case: dict(html, sheets=[dict(kind, path)], attachments=None|[dict(kind, path)], fc, cs, ncalls, api, html_obj,
+    opts, fetcher).  The files exist already (written once by the harness: same paths, same ctime for every process).
+    The SAME list / dict / FontConfiguration / CounterStyle / fetcher objects are given to every call."""
+    import pathlib
+    from weasyprint import HTML, CSS, Attachment, default_url_fetcher
+    from weasyprint.css.counters import CounterStyle
+    from weasyprint.text.fonts import FontConfiguration
+    base = _base_url(None)
+    fc = FontConfiguration() if case['fc'] == 'shared' else None
+    cs = CounterStyle() if case['cs'] == 'shared' else None
+    calls_seen = []
+    # attachments given as file names / paths are wrapped in Attachment(guess) whose dates are datetime.now() (listed finding
+    # c19:attachment-dates-from-clock, witnessed by the probes): the clock is frozen here so that it does not mask the rest
+    import datetime as _dt
+    import weasyprint as _wp
+
+    class _Frozen(_dt.datetime):
+        @classmethod
+        def now(cls, tz=None):
+            return _dt.datetime(2020, 2, 2, 2, 2, 2)
+    _wp.datetime = _Frozen
+
+    def fetcher(url, *a, **k):
+        calls_seen.append(url)
+        return default_url_fetcher(url, *a, **k)
+    html_kw = {'url_fetcher': fetcher} if case.get('fetcher') == 'custom' else {}
+    opened = []
+
+    def build(spec, what):
+        k, p = spec['kind'], spec['path']
+        if k == 'filename':
+            return p
+        if k == 'path':
+            return pathlib.Path(p)
+        if k == 'url':
+            return pathlib.Path(p).as_uri()
+        if k == 'fileobj':
+            f = open(p, 'rb')
+            opened.append(f)
+            return f
+        if k == 'css':
+            return CSS(filename=p, font_config=fc, counter_style=cs)
+        if k == 'object':
+            return Attachment(filename=p)
+        raise ValueError(k)
+    sheets = [build(x, 'sheet') for x in case['sheets']]
+    attachments = None if case.get('attachments') is None else [build(x, 'att') for x in case['attachments']]
+    options = dict(case.get('opts', {}))
+    options['pdf_identifier'] = b'c19'
+    options['stylesheets'] = sheets
+    if attachments is not None:
+        options['attachments'] = attachments
+    snap0 = dict(sheets=_items_snapshot(sheets), attachments=_items_snapshot(attachments),
+                 options=digest({k: v for k, v in options.items() if k not in ('stylesheets', 'attachments')}),
+                 options_keys=sorted(options), css=[css_snapshot(x) for x in sheets if hasattr(x, 'matcher')],
+                 att_objects=[digest({k: v for k, v in vars(x).items() if k != 'source'}) for x in (attachments or []) if isinstance(x, Attachment)])
+    html = HTML(string=case['html'], base_url=base, **html_kw)
+    html0 = html_snapshot(html)
+    out = {'calls': [], 'containers': [], 'registry': []}
+    for k in range(case['ncalls']):
+        if case.get('html_obj') == 'fresh' and k:
+            html = HTML(string=case['html'], base_url=base, **html_kw)
+            html0 = html_snapshot(html)
+        obs = {}
+        try:
+            if case['api'] == 'render':
+                document = html.render(font_config=fc, counter_style=cs, **options)
+                obs['layout'] = layout_fingerprint(document)
+                pdf = document.write_pdf(**options)
+            else:
+                pdf = html.write_pdf(font_config=fc, counter_style=cs, **options)
+            obs['pdf'] = hashlib.sha256(pdf).hexdigest()[:24]
+            obs['len'] = len(pdf)
+        except Exception as exc:
+            obs['exc'] = _exc_info(exc)
+        out['calls'].append(obs)
+        snap = dict(sheets=_items_snapshot(sheets), attachments=_items_snapshot(attachments),
+                    options=digest({k2: v for k2, v in options.items() if k2 not in ('stylesheets', 'attachments')}),
+                    options_keys=sorted(options), css=[css_snapshot(x) for x in sheets if hasattr(x, 'matcher')],
+                    att_objects=[digest({k2: v for k2, v in vars(x).items() if k2 != 'source'}) for x in (attachments or []) if isinstance(x, Attachment)])
+        out['containers'].append({
+            'sheet_kinds': ['parsed' if hasattr(x, 'matcher') else 'raw' for x in sheets],
+            'sheets_same': snap['sheets'] == snap0['sheets'] and options['stylesheets'] is sheets,
+            'attachments_same': snap['attachments'] == snap0['attachments'] and options.get('attachments') is attachments,
+            'options_same': snap['options'] == snap0['options'] and snap['options_keys'] == snap0['options_keys'],
+            'css_objects_same': snap['css'] == snap0['css'],
+            'attachment_objects_same': snap['att_objects'] == snap0['att_objects'],
+            'html_same': html_snapshot(html) == html0,
+            'changed_items': [[a[0], b[0]] for a, b in zip(snap0['sheets'], snap['sheets']) if a != b][:3] +
+                             [[a[0], b[0]] for a, b in zip(snap0['attachments'] or [], snap['attachments'] or []) if a != b][:3]})
+        out['registry'].append({'fc_files': fc_snapshot(fc)[1] if fc is not None else None,
+                                'cs_keys': sorted(cs) if cs is not None else None})
+    out['fetcher_calls'] = len(calls_seen)
+    for f in opened:
+        f.close()
+    return out
+
+
+def run_job(job):
+    """Everything one job asks for, in this process: direct calls, histories, reuse histories (module state watched)."""
     result = {'histories': [], 'module_mutated': []}
     if 'direct' in job:
         result['direct'] = run_direct(job['direct']['fn'], job['direct']['cases'])
@@ -1136,12 +1241,109 @@ def main():
         mod_before = module_snapshot() if job.get('module_snapshot', True) else None
         for h in job.get('histories', []):
             result['histories'].append({'id': h['id'], 'steps': run_history((job['docs'], tmpdir, keep), h)})
+        if 'reuse' in job:
+            result['reuse'] = [reuse_history(c, tmpdir) for c in job['reuse']]
         if mod_before is not None:
             mod_after = module_snapshot()
             result['module_mutated'] = sorted(k for k in mod_before if mod_before[k] != mod_after.get(k))
     result['hashseed_seen'] = os.environ.get('PYTHONHASHSEED')
     result['hash_probe'] = hash('c19-probe') & 0xffff
-    sys.stdout.write('C19JOB ' + json.dumps(result) + '\n')
+    return result
+
+
+def _quiet():
+    import logging
+    for name in ('weasyprint', 'weasyprint.progress', 'fontTools'):
+        logging.getLogger(name).setLevel(logging.CRITICAL + 1)
+
+
+def main():
+    _quiet()
+    job = json.loads(sys.stdin.read())
+    import weasyprint   # noqa
+    if 'zygote_jobs' in job:
+        return zygote_main(job)
+    sys.stdout.write('C19JOB ' + json.dumps(run_job(job)) + '\n')
+
+
+# =====================================================================================================================
+# zygote: ONE interpreter per hash seed imports weasyprint (1.2 s) and forks a child per job; a child is a copy of an
+# interpreter that has imported the package and rendered nothing, i.e. it has the state of a fresh interpreter, with
+# the hash seed of the zygote.  Results come back through files.
+
+def zygote_main(job):
+    import signal
+    import weasyprint.document, weasyprint.pdf, weasyprint.text.fonts, weasyprint.images   # noqa
+    jobs = job['zygote_jobs']
+    par = max(1, int(job.get('parallel', 4)))
+    tmp = tempfile.mkdtemp(prefix='c19z-')
+    results = [None] * len(jobs)
+    attempts = [0] * len(jobs)
+    crashes = [[] for _ in jobs]
+    pending = list(range(len(jobs)))
+    running = {}
+    while pending or running:
+        while pending and len(running) < par:
+            i = pending.pop(0)
+            attempts[i] += 1
+            sys.stdout.flush()
+            pid = os.fork()
+            if pid == 0:
+                code = 0
+                try:
+                    signal.alarm(int(job.get('job_timeout', 300)))
+                    out = run_job(jobs[i])
+                    with open(os.path.join(tmp, 'r%d.json' % i), 'w') as f:
+                        json.dump(out, f)
+                except BaseException as exc:     # noqa
+                    code = 3
+                    try:
+                        with open(os.path.join(tmp, 'e%d.txt' % i), 'w') as f:
+                            import traceback
+                            f.write(traceback.format_exc()[-3000:])
+                    except Exception:
+                        pass
+                os._exit(code)
+            running[pid] = i
+        pid, status = os.wait()
+        i = running.pop(pid)
+        path = os.path.join(tmp, 'r%d.json' % i)
+        if status == 0 and os.path.exists(path):
+            results[i] = json.load(open(path))
+            results[i]['crashes_before'] = crashes[i]
+        else:
+            err = os.path.join(tmp, 'e%d.txt' % i)
+            crashes[i].append({'status': status, 'stderr': open(err).read() if os.path.exists(err) else ''})
+            if attempts[i] < 2:
+                pending.append(i)      # a native crash (seen once, not reproducible) is retried once
+            else:
+                results[i] = {'crashed': True, 'attempts': crashes[i]}
+    import shutil
+    shutil.rmtree(tmp, ignore_errors=True)
+    sys.stdout.write('C19JOB ' + json.dumps({'zygote': results}) + '\n')
+
+
+def zygote(case):
+    """case: dict(hashseed, jobs=[job], parallel, timeout) -> list of job results (see run_job), each produced by a forked
+    copy of one freshly started interpreter with that PYTHONHASHSEED."""
+    repo = os.environ.get('VERIF_REPO', '/repo')
+    env = dict(os.environ)
+    env['PYTHONHASHSEED'] = str(case['hashseed'])
+    env['PYTHONPATH'] = repo + os.pathsep + os.path.dirname(os.path.abspath(__file__))
+    env['SOURCE_DATE_EPOCH'] = EPOCH
+    env['VERIF_REPO'] = repo
+    env.pop('PYTHONSTARTUP', None)
+    payload = {'zygote_jobs': case['jobs'], 'parallel': case.get('parallel', 4), 'job_timeout': case.get('job_timeout', 300)}
+    p = subprocess.run([PY, os.path.abspath(__file__)], input=json.dumps(payload).encode(), env=env,
+                       stdout=subprocess.PIPE, stderr=subprocess.PIPE, timeout=case.get('timeout', 900))
+    lines = [l for l in p.stdout.decode('utf-8', 'replace').splitlines() if l.startswith('C19JOB ')]
+    if p.returncode != 0 or not lines:
+        return [{'crashed': True, 'attempts': [{'rc': p.returncode, 'stderr': p.stderr.decode('utf-8', 'replace')[-2000:]}]}
+                for _ in case['jobs']]
+    outs = json.loads(lines[-1][7:])['zygote']
+    for o in outs:
+        o['hashseed'] = case['hashseed']
+    return outs
 
 
 if __name__ == '__main__':
